@@ -88,6 +88,12 @@ theorem source_paths_send_exactly_once :
 theorem source_exception_paths_send_exactly_once :
     ∀ p ∈ branchExcSendCounts, p.2 = [1] ∨ p.2 = [] := by decide +kernel
 
+/-- **The READDIR answer is well-formed by construction**: in `_read_folder` the entry count written into the NAME
+    packet and the entries that follow come from the same list — one (filename, longname, attributes) triple per
+    element, with nothing in the loop that could drop or add an entry (read from the AST every run).  An entry that
+    cannot be encoded therefore raises before anything is sent and is answered by the catch-all (model: `raises`). -/
+theorem source_readdir_count_matches_entries : readdirCountMatchesEntries = true := by decide
+
 theorem source_else_branch_emits_status : ∀ ty ∈ elseTypes, ty = cmdStatus := by decide +kernel
 
 /-- The hand-written dispatcher only emits, for each command, a packet type that the source's branch for that
